@@ -69,7 +69,7 @@ class SpliceInsert(ObjectWithFields):
         r.read(1, 'splice_event_cancel_indicator')
         r.get(7, 'reserved')
         if kwargs['splice_event_cancel_indicator']:
-            return
+            return kwargs
         r.read(1, 'out_of_network_indicator')
         r.read(1, 'program_splice_flag')
         r.read(1, 'duration_flag')
